@@ -115,6 +115,18 @@ func (e *Engine) trSpec(env *SpecEnv, x SExpr) Val {
 					ts = append(ts, e.trSpec(&tenv, t).T)
 				}
 				pats = append(pats, ":pattern ("+strings.Join(ts, " ")+")")
+				if !n.All && len(tr) == 1 {
+					// exists j :: {s[j]} ...: to prove it the solver must find the witness index; the element term of
+					// the *current* slice value usually does not occur yet (the witness is known for an earlier value of
+					// the slice), so the bare index term is offered as an alternative pattern
+					if ix, ok := tr[0].(SIndex); ok {
+						xv := e.trSpec(&tenv, ix.X)
+						if xv.S == "Slice" {
+							iv := e.trSpec(&tenv, ix.I)
+							pats = append(pats, ":pattern ((ix (s_off "+xv.T+") "+iv.T+"))")
+						}
+					}
+				}
 			}
 			return boolVal("(" + q + " (" + strings.Join(decls, " ") + ") (! " + body.T + " " + strings.Join(pats, " ") + "))")
 		}
@@ -683,10 +695,28 @@ func (e *Engine) trCall(env *SpecEnv, n SCall) Val {
 		return Val{T: cur, S: "String", GoT: tString}
 	case "visited":
 		// visited(k): key k was already yielded by the map iteration of the current loop
-		if env.loop == nil {
+		vloop := env.loop
+		if len(n.Args) == 2 {
+			// visited(k, "range m"): the visited set of an enclosing (or earlier) map loop named by its header text
+			ks, ok := n.Args[1].(SStr)
+			if !ok || env.fc == nil {
+				e.specFail(env, "visited(k, \"range <expr>\")")
+			}
+			ord, ok := resolveLoopKey(loopTexts(env.fc.fn), ks.V)
+			if !ok {
+				e.specFail(env, "visited(): no loop "+ks.V)
+			}
+			vloop = nil
+			for _, li := range env.fc.loops {
+				if li.ordinal == ord {
+					vloop = li
+				}
+			}
+		}
+		if vloop == nil {
 			e.specFail(env, "visited() outside a loop invariant")
 		}
-		for _, ins := range env.loop.header.Instrs {
+		for _, ins := range vloop.header.Instrs {
 			if nx, ok := ins.(*ssa.Next); ok {
 				if c, ok := env.st.Cells[nx.Iter]; ok {
 					return boolVal(sel(c.T, arg(0).T))
@@ -694,6 +724,37 @@ func (e *Engine) trCall(env *SpecEnv, n SCall) Val {
 			}
 		}
 		e.specFail(env, "visited(): the current loop is not a range over a map")
+	case "curKey":
+		// curKey("range m"): the key yielded by the current iteration of the named map loop (also when the program
+		// discards it with _); curKey() names the loop of the invariant itself
+		kloop := env.loop
+		if len(n.Args) == 1 {
+			ks, ok := n.Args[0].(SStr)
+			if !ok || env.fc == nil {
+				e.specFail(env, "curKey(\"range <expr>\")")
+			}
+			ord, ok := resolveLoopKey(loopTexts(env.fc.fn), ks.V)
+			if !ok {
+				e.specFail(env, "curKey(): no loop "+ks.V)
+			}
+			kloop = nil
+			for _, li := range env.fc.loops {
+				if li.ordinal == ord {
+					kloop = li
+				}
+			}
+		}
+		if kloop == nil {
+			e.specFail(env, "curKey() outside a loop invariant")
+		}
+		for _, ins := range kloop.header.Instrs {
+			if nx, ok := ins.(*ssa.Next); ok {
+				if v, ok := env.fc.regs[nx]; ok && len(v.Tuple) == 3 {
+					return v.Tuple[1]
+				}
+			}
+		}
+		e.specFail(env, "curKey(): the loop is not a range over a map (or has not been entered)")
 	case "mk":
 		// mk(T, f0, f1, ...): a value of struct type T with the given field values (in declaration order)
 		t, err := e.w.resolveType(env.pkg, env.pos, specString(n.Args[0]))
